@@ -146,7 +146,7 @@ Section C18.
   Proof. exact (alias_update_keeps_working pycast arrcast infer astype_dt itemseq_exn am a value hint s). Qed.
 
   Theorem C18_alias_strict_blocks_new_attributes am a value hint s :
-    strict s = true -> resolve am a <> "strict" ->
+    strict s = true -> is_property (kind s) (resolve am a) = false ->
     mem (resolve am a) (index s) = false -> reg_mem (resolve am a) (registry s) = false ->
     alias_step am (SetAttr a value hint) s =
       (s, Raise (match alternatives hint (row_names s) with _ :: _ :: _ => NotImplementedError | _ => AttributeError end)).
@@ -204,10 +204,50 @@ Section C18_twin.
     NoDup (akeys ALIASES) ->
     (forall k, In k (akeys (drop_self ALIASES)) -> exists n, ~ In (follow n (drop_self ALIASES) k) (akeys (drop_self ALIASES))) ->
     alias_construct ALIASES PREFERRED = Ret am ->
-    forall k sp st d default NAMES kwargs,
-      gen_alias_init_model pycast arrcast infer astype_dt am k sp st d default NAMES kwargs =
-      init_model pycast arrcast infer astype_dt k sp st d default NAMES (canon_kwargs ALIASES kwargs).
+    forall ca k sp st d default NAMES kwargs s u,
+      gen_alias_init_model pycast arrcast infer astype_dt ca am k sp st d default NAMES kwargs = (s, Ret u) ->
+      init_model pycast arrcast infer astype_dt k sp st d default NAMES (canon_kwargs ALIASES kwargs) = (s, Ret u).
   Proof. exact (alias_init_canonical_twin pycast arrcast infer astype_dt ALIASES PREFERRED am). Qed.
+
+  (* fix 4e03fd0: a constructed aliased object has no alias named like a variable, like an entry of its __dict__ (attributes
+     included) or like an attribute of its class (`ca` = the names with hasattr(type(self), name): Python's business, handed in);
+     such declarations are refused with InitialisationError *)
+  Theorem C18_alias_init_no_clash ca am k sp st d default NAMES kwargs s u :
+    gen_alias_init_model pycast arrcast infer astype_dt ca am k sp st d default NAMES kwargs = (s, Ret u) ->
+    init_model pycast arrcast infer astype_dt k sp st d default NAMES (resolve_kwargs am kwargs) = (s, Ret u) /\
+    forall a, In a (akeys (amap am)) -> ~ In a (index s) /\ assoc a (adict s) = None /\ ~ In a ca.
+  Proof. exact (alias_init_no_clash pycast arrcast infer astype_dt ca am k sp st d default NAMES kwargs s u). Qed.
+
+  Theorem C18_alias_named_like_variable_rejected ca am k sp st d default NAMES kwargs s u a :
+    init_model pycast arrcast infer astype_dt k sp st d default NAMES (resolve_kwargs am kwargs) = (s, Ret u) ->
+    In a (akeys (amap am)) -> In a (index s) ->
+    gen_alias_init_model pycast arrcast infer astype_dt ca am k sp st d default NAMES kwargs = (s, Raise InitialisationError).
+  Proof. exact (alias_named_like_variable_rejected pycast arrcast infer astype_dt ca am k sp st d default NAMES kwargs s u a). Qed.
+
+  Theorem C18_alias_named_like_attribute_rejected ca am k sp st d default NAMES kwargs s u a :
+    init_model pycast arrcast infer astype_dt k sp st d default NAMES (resolve_kwargs am kwargs) = (s, Ret u) ->
+    In a (akeys (amap am)) -> assoc a (adict s) <> None ->
+    gen_alias_init_model pycast arrcast infer astype_dt ca am k sp st d default NAMES kwargs = (s, Raise InitialisationError).
+  Proof. exact (alias_named_like_attribute_rejected pycast arrcast infer astype_dt ca am k sp st d default NAMES kwargs s u a). Qed.
+
+  (* EXPORT ONLY RENAMES, with NO assumption about names any more: for whatever the constructor accepted and any in-scope history that
+     does not add_variable an alias name (the door the constructor cannot close: C18_add_variable_alias_name_refuted), every selection
+     of columns (status / iterations / internal variables in or out) is exported with its own data, in order, none dropped, under
+     pairwise different titles, each the column's name or one of its aliases *)
+  Theorem C18_export_only_renames_constructed ALIASES PREFERRED ca am k sp st d default NAMES kwargs s0 u ops :
+    k <> CVC -> NoDup (akeys ALIASES) ->
+    alias_construct ALIASES PREFERRED = Ret am ->
+    gen_alias_init_model pycast arrcast infer astype_dt ca am k sp st d default NAMES kwargs = (s0, Ret u) ->
+    Forall (in_scope (kind s0)) (map (resolve_op am) ops) ->
+    (forall a v dt, In a (akeys (amap am)) -> ~ In (AddVariable a v dt) ops) ->
+    forall fs fi fincl,
+    let s := gen_alias_run pycast arrcast infer astype_dt itemseq_exn am ops s0 in
+    NoDup (base_columns_with fs fi fincl s) ->
+    exists l, export_with am fs fi fincl s = Ret l /\
+      map snd l = base_columns_with fs fi fincl s /\
+      NoDup (map fst l) /\
+      Forall2 (fun c t => t = c \/ In (t, c) (amap am)) (base_columns_with fs fi fincl s) (map fst l).
+  Proof. exact (export_only_renames_constructed pycast arrcast infer astype_dt itemseq_exn ALIASES PREFERRED ca am k sp st d default NAMES kwargs s0 u ops). Qed.
 End C18_twin.
 
 Theorem C18_alias_read_canonical_twin ALIASES PREFERRED am :
@@ -354,27 +394,16 @@ Theorem C18_export_cols_rename_only am :
     Forall2 (fun c t => t = c \/ In (t, c) (amap am)) cols (map fst l).
 Proof. exact (export_cols_rename_only am). Qed.
 
-(* kept finding: an alias named like an attribute of the object - the write reaches the variable, the attribute (what an attribute
-   read returns) does not change *)
-Theorem C18_alias_named_like_attribute_refuted :
-  exists am s v,
-    alias_construct [("lags", "X")] [] = Ret am /\ WFam am /\ Inv s /\
-    reg_mem "lags" (registry s) = true /\ assoc "lags" (adict s) = Some (OScalar (PInt 0)) /\
-    snd (alias_step am (SetAttr "lags" v None) s) = Ret tt /\
-    assoc "X" (vars (fst (alias_step am (SetAttr "lags" v None) s))) <> assoc "X" (vars s) /\
-    assoc "lags" (adict (fst (alias_step am (SetAttr "lags" v None) s))) = Some (OScalar (PInt 0)) /\
-    alias_getitem am (KName "lags") (fst (alias_step am (SetAttr "lags" v None) s)) = Ret [PFlt (FHalf 10); PFlt (FHalf 10); PFlt (FHalf 10)]%Z.
-Proof. exact alias_named_like_attribute_refuted. Qed.
-
-(* kept finding (known_findings.d/C18.json): an alias named like an existing variable *)
-Theorem C18_alias_named_like_variable_refuted :
-  exists am s l,
-    alias_construct [("Z", "Y")] [] = Ret am /\ WFam am /\ NoDup (akeys (amap am)) /\ Inv s /\
-    names s = ["X"; "Y"; "Z"] /\
-    export am s = Ret l /\
-    map fst l = ["X"; "Z"; "Z"; "status"; "iterations"] /\
-    map snd l = ["X"; "Y"; "Y"; "status"; "iterations"].
-Proof. exact alias_named_like_variable_refuted. Qed.
+(* kept finding (known_findings.d/C18.json): add_variable is not wrapped by the mixin and accepts the name of an alias after
+   construction; the new variable is unreachable by name and exported twice under one title *)
+Theorem C18_add_variable_alias_name_refuted :
+  exists am s o l,
+    WFam am /\ NoDup (akeys (amap am)) /\ Inv s /\ In "A" (akeys (amap am)) /\ o = AddVariable "A" (OScalar (PInt 9)) None /\
+    snd (alias_step am o s) = Ret tt /\
+    export am (fst (alias_step am o s)) = Ret l /\
+    ~ NoDup (map fst l) /\
+    alias_getitem am (KName "A") (fst (alias_step am o s)) = alias_getitem am (KName "X") (fst (alias_step am o s)).
+Proof. exact add_variable_alias_name_refuted. Qed.
 
 Print Assumptions C18_shorten_acyclic.
 Print Assumptions C18_shorten_cyclic.
@@ -420,14 +449,18 @@ Print Assumptions C18_alias_reindex_no_storage_under_aliases.
 Print Assumptions C18_reindex_plain_spec.
 Print Assumptions C18_reindex_plain_inv.
 Print Assumptions reindex_mA.
+Print Assumptions C18_alias_init_no_clash.
+Print Assumptions C18_alias_named_like_variable_rejected.
+Print Assumptions C18_alias_named_like_attribute_rejected.
+Print Assumptions C18_export_only_renames_constructed.
+Print Assumptions C18_add_variable_alias_name_refuted.
+Print Assumptions clashing_aliases_rejected.
 Print Assumptions C18_export_total.
 Print Assumptions C18_export_rename_only.
 Print Assumptions C18_preferred_title.
 Print Assumptions C18_export_cols_total.
 Print Assumptions C18_export_cols_rename_only.
-Print Assumptions C18_alias_named_like_attribute_refuted.
 Print Assumptions export_with_selections.
-Print Assumptions C18_alias_named_like_variable_refuted.
 Print Assumptions chain3_hypotheses.
 Print Assumptions cycle_hypothesis.
 Print Assumptions export_renames_only.
